@@ -47,7 +47,7 @@ TReset(e) ==
   /\ tst' = I0.tst /\ tid' = I0.tid /\ talloc' = I0.alloc /\ ialloc' = I0.alloc
   /\ obj' = I0.obj /\ stor' = I0.stor /\ cache' = I0.cache /\ nextEid' = 1 /\ nextLc' = 1
   /\ g' = I0.g /\ used' = I0.used /\ faddr' = I0.faddr
-  /\ pend' = I0.pend /\ rd' = NoRd /\ cseq' = I0.cseq /\ cdone' = I0.cdone /\ ev' = NoEv
+  /\ pend' = I0.pend /\ rd' = NoRd /\ cseq' = I0.cseq /\ cdone' = I0.cdone /\ dt' = NoDt /\ ev' = NoEv
   /\ oslot' = [t \in Thr |-> -1] /\ oaddr' = [lc \in Lcs |-> [t \in Thr |-> 0]]
   /\ UNCHANGED <<bad, drift>>
 
